@@ -166,8 +166,52 @@ def probe_embed(name, D, N, order, seed):
     return {"ok": bool(worst <= 1e-9 * sc), "err": worst, "scale": sc}
 
 
+def probe_wave(D, N, seed):
+    """the wave stepper (2 channels: height, velocity; isotropic): grid shifts, axis permutations and 1-D embedding"""
+    import jax.numpy as jnp
+    import exponax as ex
+    rng = np.random.default_rng(seed)
+    L, dt, c = 2.3, 0.05, 1.4
+    st = ex.stepper.Wave(D, L, N, dt, speed_of_sound=c)
+    u = rng.normal(size=(2,) + (N,) * D)
+    base = np.asarray(st(jnp.asarray(u)))
+    sc = float(np.max(np.abs(base))) + 1e-300
+    res = {}
+    axes = tuple(range(1, D + 1))
+    shift = tuple(int(x) for x in rng.integers(0, N, D))
+    res["shift"] = float(np.max(np.abs(np.asarray(st(jnp.asarray(np.roll(u, shift, axis=axes)))) - np.roll(base, shift, axis=axes))))
+    worst = 0.0
+    for perm in itertools.permutations(range(D)):
+        if perm == tuple(range(D)):
+            continue
+        tp = (0,) + tuple(1 + p for p in perm)
+        worst = max(worst, float(np.max(np.abs(np.asarray(st(jnp.asarray(np.transpose(u, tp)))) - np.transpose(base, tp)))))
+    res["perm"] = worst
+    if D > 1:
+        s1 = ex.stepper.Wave(1, L, N, dt, speed_of_sound=c)
+        u1 = rng.normal(size=(2, N))
+        want1 = np.asarray(s1(jnp.asarray(u1)))
+        worst = 0.0
+        for ax in range(D):
+            shape = [2] + [1] * D
+            shape[1 + ax] = N
+            uD = np.broadcast_to(u1.reshape(shape), (2,) + (N,) * D).copy()
+            got = np.asarray(st(jnp.asarray(uD)))
+            worst = max(worst, float(np.max(np.abs(got - np.broadcast_to(want1.reshape(shape), (2,) + (N,) * D)))))
+        res["embed"] = worst
+    bad = {k: v for k, v in res.items() if not v <= 1e-9 * sc}
+    return {"ok": not bad, "bad": bad, "all": res, "scale": sc, "shift": shift}
+
+
 def oracle(ctx, deep):
     fails = []
+    for D in (1, 2, 3):
+        for N in ((6, 7) if not deep else (5, 6, 7, 8, 9)):
+            r = probe_wave(D, N, ctx.seed + D)
+            ctx.count(("oracle_wave", D, N))
+            if not r["ok"]:
+                fails.append({"key": f"C08:wave:{'/'.join(sorted(r['bad']))}", "what": f"Wave (D={D}, N={N}) breaks a box symmetry: {r['bad']} (scale {r['scale']:.3g})",
+                              "probe": "wave", "args": {"D": D, "N": N, "seed": ctx.seed + D}, "observed": r})
     R = S.registry()
     rng = np.random.default_rng(ctx.seed + 21)
     names = list(R.keys())
@@ -213,4 +257,4 @@ def oracle(ctx, deep):
 
 
 def replay(probe, args):
-    return {"shift": probe_shift, "perm": probe_perm, "embed": probe_embed}[probe](**args)
+    return {"shift": probe_shift, "perm": probe_perm, "embed": probe_embed, "wave": probe_wave}[probe](**args)
